@@ -35,6 +35,7 @@ def run(tier):
             n2 += refine.gsrfs_oracle(chk, 'C13.D3', prog, eff, p, cfgname)
             refine.stopping_rule(chk, 'C13.D1', prog, p, cfgname)
             refine.guarded_division(chk, 'C13.D1', prog, p, cfgname)
+            refine.accumulator_init_rule(chk, 'C13.D1', prog, p, cfgname)
         if n < 400 or n2 < 4 * 12:
             raise AnalysisBroken('C13: %d driver leaves, %d gsrfs leaves' % (n, n2))
         if cfgname == 'tested':
